@@ -293,9 +293,9 @@ impl<'de, 't, 'a> de::Deserializer<'de> for &'a mut Deserializer<'de, 't> {
                     ..self.clone()
                 };
                 if let Type::Record(_) = **typ {
-                    deserializer.deserialize_enum("", &[], visitor)
-                } else {
                     deserializer.deserialize_map(visitor)
+                } else {
+                    deserializer.deserialize_enum("", &[], visitor)
                 }
             }
             ValueRef::Float(_) => self.deserialize_f64(visitor),
